@@ -179,8 +179,11 @@ func (v *FnVC) exec(fr *frame, st *State, ins ssa.Instruction) {
 		}
 		// declared model invariant "slices of this element type never hold nil": guaranteed at every element store
 		if pv, ok := p.(PtrV); ok && pv.L.Kind == locElem && v.w.Contracts.ElemsNonNil[typeKey(types.Unalias(et))] {
-			if sv, ok := v.scalarizeVal(v.value(fr, x.Val)).(Sc); ok {
+			switch sv := v.scalarizeVal(v.value(fr, x.Val)).(type) {
+			case Sc:
 				v.safe(fr, "elemnil", ins, Not(Eq(sv.T, tZero)))
+			case IfaceV:
+				v.safe(fr, "elemnil", ins, Not(Eq(sv.Tag, tZero)))
 			}
 		}
 		v.storeThrough(st, p, et, v.value(fr, x.Val))
@@ -336,10 +339,39 @@ func (v *FnVC) mapParts(st *State, mt *types.Map, m Term) (dom Term, ks Sort) {
 
 func (v *FnVC) mapValueSupported(mt *types.Map) bool {
 	switch kindOf(mt.Elem()) {
-	case kStruct, kArray, kTuple:
+	case kStruct:
+		return flatScalarStruct(mt.Elem())
+	case kArray, kTuple:
 		return false
 	}
 	return true
+}
+
+// flatScalarStruct: a struct whose fields are all scalars (map values of this shape are kept per field)
+func flatScalarStruct(t types.Type) bool {
+	st, ok := under(t).(*types.Struct)
+	if !ok || st.NumFields() == 0 {
+		return false
+	}
+	for i := 0; i < st.NumFields(); i++ {
+		if kindOf(st.Field(i).Type()) != kScalar {
+			return false
+		}
+	}
+	return true
+}
+
+// mapCompSuffixes: the component families of a map value of type t
+func mapCompSuffixes(t types.Type) []string {
+	if kindOf(t) == kStruct && flatScalarStruct(t) {
+		st := under(t).(*types.Struct)
+		out := make([]string, st.NumFields())
+		for i := range out {
+			out[i] = "." + st.Field(i).Name()
+		}
+		return out
+	}
+	return compSuffixes(t)
 }
 
 func (v *FnVC) mapRead(st *State, mt *types.Map, m, key Term, guard Term) Val {
@@ -351,7 +383,7 @@ func (v *FnVC) mapRead(st *State, mt *types.Map, m, key Term, guard Term) Val {
 	} else {
 		sorts = flatSorts(et)
 	}
-	sufs := compSuffixes(et)
+	sufs := mapCompSuffixes(et)
 	ts := make([]Term, len(sorts))
 	for i, so := range sorts {
 		inner := Sort("(Array " + string(ks) + " " + string(so) + ")")
@@ -420,7 +452,7 @@ func (v *FnVC) mapUpdate(fr *frame, st *State, x *ssa.MapUpdate) {
 	} else {
 		sorts = flatSorts(et)
 	}
-	sufs := compSuffixes(et)
+	sufs := mapCompSuffixes(et)
 	ts := flatten(v.scalarizeVal(v.value(fr, x.Value)))
 	for i, so := range sorts {
 		inner := Sort("(Array " + string(ks) + " " + string(so) + ")")
